@@ -21,8 +21,6 @@ import (
 	"regexp"
 	"sort"
 	"strings"
-
-	"golang.org/x/crypto/sha3"
 )
 
 var fset = token.NewFileSet()
@@ -448,12 +446,11 @@ func main() {
 	}
 	fact("store insert before onleaf = %s", insertBefore)
 
+	// SHA3-256("") = a7ffc6f8bf1ed766...; spelled out rather than computed so that the
+	// translator needs no third-party import (gen/go.mod stays as it is)
 	var prefix7 uint64
 	if emptyInit["emptyData"] == "sha3.Sum256(nil)" && emptyInit["emptyCode"] == "sha3.Sum256(nil)" {
-		h := sha3.Sum256(nil)
-		for i := 0; i < 7; i++ {
-			prefix7 = prefix7<<8 | uint64(h[i])
-		}
+		prefix7 = 0xa7ffc6f8bf1ed7
 	}
 
 	var o bytes.Buffer
